@@ -73,7 +73,7 @@ func runC15(c *core.Ctx) {
 	p := c.P
 	c.Rule("R1", "each close(C) of a field channel runs with an exclusive lock of the same object held, and a store of true to the object's closed flag precedes it on every path", 6)
 	c.Rule("R2", "each send on a closable field channel (bare, in a select, or through a ChannelQueue helper) runs with the closer's lock held (R or W) and is dominated, within that lock hold, by a test of the closed flag taking the not-closed edge (followed through closures passed to lock wrappers and through unexported helpers via all their call sites)", 8)
-	c.Rule("R3", "operations started after the close report it: the closed edge of the entry points returns the documented sentinel (ErrQueueIsClosed / ErrWorkerPoolIsClosed / 0) or drops the work", 7)
+	c.Rule("R3", "operations started after the close report it: the closed edge of the entry points returns the documented sentinel (ErrQueueIsClosed / ErrWorkerPoolIsClosed / 0) or drops the work", 8)
 	c.Assume = append(c.Assume, "channels are closed only through close() on the field (no reflection)", "a caller-supplied channel (NewByCh/NewByOptions) is not closed or used by the caller")
 	li := core.ComputeLocks(p)
 	c.Rule("R4", "every lock taken by the closers/senders' types (Cor, BufferedChannelQueue, WorkerPool) is released in the same mode on every return path", 8)
@@ -280,6 +280,38 @@ func c15privateHelper(p *core.Prog, o core.ChanOp) bool {
 	}
 	g := core.Callee(ci.Common())
 	return g != nil && p.InRepo(g) && g.Object() != nil && !g.Object().Exported() && len(g.Blocks) > 0
+}
+
+// c15feeds: value v is (part of) the computation of cond.
+func c15feeds(v ssa.Value, cond ssa.Value, depth int) bool {
+	if depth > 6 || cond == nil {
+		return false
+	}
+	cond = core.Resolve(cond)
+	if cond == v {
+		return true
+	}
+	switch x := cond.(type) {
+	case *ssa.UnOp:
+		return c15feeds(v, x.X, depth+1)
+	case *ssa.BinOp:
+		return c15feeds(v, x.X, depth+1) || c15feeds(v, x.Y, depth+1)
+	case *ssa.Phi:
+		for _, e := range x.Edges {
+			if c15feeds(v, e, depth+1) {
+				return true
+			}
+		}
+	case *ssa.Extract:
+		return c15feeds(v, x.Tuple, depth+1)
+	case *ssa.Call:
+		for _, a := range x.Call.Args {
+			if c15feeds(v, a, depth+1) {
+				return true
+			}
+		}
+	}
+	return false
 }
 
 func keysOf(m map[string]*c15chan) []string {
@@ -535,6 +567,7 @@ func c15R3(c *core.Ctx, li *core.LockInfo) {
 		{p.Fpgo, "BufferedChannelQueue", "Poll", "isClosed", "ErrQueueIsClosed"},
 		{p.Fpgo, "BufferedChannelQueue", "Count", "isClosed", "0"},
 		{p.Worker, "DefaultWorkerPool", "Schedule", "isClosed", "ErrWorkerPoolIsClosed"},
+		{p.Worker, "DefaultWorkerPool", "ScheduleWithTimeout", "isClosed", "ErrWorkerPoolIsClosed"},
 		{p.Fpgo, "HandlerDef", "Post", "isClosed", ""},
 		{p.Fpgo, "ActorDef", "Send", "isClosed", ""},
 	}
@@ -546,6 +579,7 @@ func c15R3(c *core.Ctx, li *core.LockInfo) {
 			continue
 		}
 		c.Analysed(core.FuncName(f))
+		f = core.SameParamsImpl(p, f)
 		ok, detail := c15closedResult(p, f, w.flag, w.sentinel, 0)
 		c.Check(ok, "R3", key, p.Pos(f.Pos()), detail, detail)
 	}
@@ -571,6 +605,54 @@ func c15closedResult(p *core.Prog, f *ssa.Function, flag, sentinel string, depth
 			return v
 		}
 	}
+	// an entry point that only takes its lock(s) and returns what one method of the same receiver returns
+	// (`Lock(); defer Unlock(); return q.offerLocked(v)`): the delegate's own closed edge is the entry point's
+	if depth < 2 {
+		var del *ssa.Call
+		pure := true
+		core.Instrs(f, func(ins ssa.Instruction) {
+			switch x := ins.(type) {
+			case *ssa.Call:
+				if _, _, isLock := core.LockOp(&x.Call); isLock {
+					return
+				}
+				if g := core.Callee(&x.Call); g != nil && p.InRepo(g) && len(g.Blocks) > 0 && len(x.Call.Args) > 0 && core.Path(x.Call.Args[0]) == base && del == nil {
+					del = x
+					return
+				}
+				pure = false
+			case *ssa.Defer:
+				if _, _, isLock := core.LockOp(&x.Call); !isLock {
+					pure = false
+				}
+			case *ssa.Return:
+				if x.Block() == f.Recover {
+					return
+				}
+				for _, r := range core.RetVals(x) {
+					rv := core.Resolve(r)
+					if rv == ssa.Value(del) {
+						continue
+					}
+					if ex, isE := rv.(*ssa.Extract); isE && del != nil && ex.Tuple == ssa.Value(del) {
+						continue
+					}
+					pure = false
+				}
+			case *ssa.Store:
+				if _, isLocal := x.Addr.(*ssa.Alloc); !isLocal {
+					pure = false // (a result spilled for the deferred unlock is a local store)
+				}
+			case *ssa.If, *ssa.Send, *ssa.Go, *ssa.Select, *ssa.MapUpdate:
+				pure = false
+			}
+		})
+		if pure && del != nil && len(f.Blocks) <= 3 {
+			if h := core.Callee(&del.Call); h != f && h.Signature.Recv() != nil {
+				return c15closedResult(p, h, flag, sentinel, depth+1)
+			}
+		}
+	}
 	ok, detail := false, "no test of the closed flag found"
 	for _, b := range f.Blocks {
 		iff, isIf := b.Instrs[len(b.Instrs)-1].(*ssa.If)
@@ -591,7 +673,13 @@ func c15closedResult(p *core.Prog, f *ssa.Function, flag, sentinel string, depth
 		if !viaPredicate && !flagRead(p, up(n.V), base, flag, 0) {
 			// `if err := q.prologue(); err != nil { return ..., err }`
 			cmp, isCmp := core.AsCmp(n)
-			if !isCmp || depth > 1 || sentinel == "" || sentinel == "0" || !core.IsNilConst(cmp.Y) || (cmp.Op != token.NEQ && cmp.Op != token.EQL) {
+			if isCmp && core.GlobalName(cmp.X) != "" && core.GlobalName(cmp.Y) == "" && (cmp.Op == token.NEQ || cmp.Op == token.EQL) {
+				cmp.X, cmp.Y = cmp.Y, cmp.X // `ErrX != err`
+			}
+			// also `if err != ErrOtherSentinel { return err }`: a result that equals this entry point's closed sentinel
+			// differs from any other sentinel, so that edge is taken as well
+			otherSentinel := core.GlobalName(cmp.Y) != "" && core.GlobalName(cmp.Y) != sentinel
+			if !isCmp || depth > 1 || sentinel == "" || sentinel == "0" || !(core.IsNilConst(cmp.Y) || otherSentinel) || (cmp.Op != token.NEQ && cmp.Op != token.EQL) {
 				continue
 			}
 			x := core.Resolve(cmp.X)
@@ -684,6 +772,40 @@ func c15closedResult(p *core.Prog, f *ssa.Function, flag, sentinel string, depth
 			}
 		}
 		if ok {
+			// nothing is handed over before the closed test: every call into the repository (accessors aside), send and
+			// go statement of the entry point comes after it
+			var at ssa.Instruction = iff
+			if vc, isVC := viaHelper.(ssa.Instruction); isVC {
+				at = vc
+			} else if ex, isE := viaHelper.(*ssa.Extract); isE {
+				at, _ = ex.Tuple.(ssa.Instruction)
+			}
+			early := ""
+			core.Instrs(f, func(ins ssa.Instruction) {
+				if ins == at || early != "" || core.InstrDominates(at, ins) {
+					return
+				}
+				switch x := ins.(type) {
+				case *ssa.Send, *ssa.Go:
+					early = p.InstrPos(ins)
+				case *ssa.Call:
+					g := core.Callee(&x.Call)
+					if g == nil || !p.InRepo(g) || core.ThinReturn(g) != nil || core.IsAtomGet(g) {
+						return
+					}
+					// the call that computes the tested condition itself
+					if core.InstrDominates(ins, at) {
+						if ifi, isIf := at.(*ssa.If); isIf && c15feeds(x, ifi.Cond, 0) {
+							return
+						}
+					}
+					early = p.InstrPos(ins)
+				}
+			})
+			if early != "" {
+				ok, detail = false, "work is handed over at "+early+" before the closed flag is tested: an operation started after Close returned still reaches the queue / a worker"
+				continue
+			}
 			detail = "closed edge returns " + sentinel
 			if sentinel == "" {
 				detail = "closed edge returns without sending"
